@@ -388,11 +388,11 @@ def parse_radec(src_raj: float, src_dej: float) -> SkyCoord:
     ho, mi = divmod(src_raj, 10000)
     mi, se = divmod(mi, 100)
 
-    sign = -1 if src_dej < 0 else 1
+    sign = "-" if src_dej < 0 else "+"
     de, ami = divmod(abs(src_dej), 10000)
     ami, ase = divmod(ami, 100)
 
-    radec_str = f"{int(ho)} {int(mi)} {se} {sign * int(de)} {int(ami)} {ase}"
+    radec_str = f"{int(ho)} {int(mi)} {se:.10f} {sign}{int(de)} {int(ami)} {ase:.10f}"
     return SkyCoord(radec_str, unit=(units.hourangle, units.deg))
 
 
